@@ -199,7 +199,7 @@ def build(cfg, start, prods, smart, skip=_NO_SKIP_ARG):
     return "ok", p
 
 
-def parse(parser, cfg, toks, bound=None, step_budget=STEP_BUDGET, start_symbol=None):
+def parse(parser, cfg, toks, bound=None, step_budget=STEP_BUDGET, start_symbol=None, raw_text=None):
     """Real parse of the text made of ``toks`` under the monitor; ``start_symbol`` is handed over as the
     public ``start_symbol_name`` argument of parse (None: the constructor's start symbol).
     -> (kind, payload): ("tree", root) | ("ParsingError", None) | ("LexicalError", None) |
@@ -211,7 +211,9 @@ def parse(parser, cfg, toks, bound=None, step_budget=STEP_BUDGET, start_symbol=N
               getattr(parser, "_seq_symbols", ()))
     _ACTIVE = True
     try:
-        if start_symbol is None:
+        if raw_text is not None:
+            root = parser.parse(raw_text, do_cleanup=False)
+        elif start_symbol is None:
             root = parser.parse(cfg.text(toks), do_cleanup=False)
         else:
             root = parser.parse(cfg.text(toks), do_cleanup=False, start_symbol_name=start_symbol)
